@@ -5,6 +5,7 @@ import (
 	"flag"
 	"fmt"
 	"os"
+	"path/filepath"
 	"runtime/pprof"
 	"sort"
 	"strings"
@@ -55,8 +56,8 @@ func harnessOverlay(repo, dir string) (map[string]string, error) {
 func cmdRun(args []string) {
 	fs := flag.NewFlagSet("run", flag.ExitOnError)
 	repo := fs.String("repo", "/repo", "repository")
-	hdir := fs.String("harness-dir", "/verif/harness", "directory with zz_vp_*.go")
-	modfile := fs.String("modfile", "/verif/work/engine.mod", "go.mod with model replacements")
+	hdir := fs.String("harness-dir", filepath.Join(verifDir, "harness"), "directory with zz_vp_*.go")
+	modfile := fs.String("modfile", "auto", "go.mod with model replacements (auto: generated from the repo's go.mod)")
 	names := fs.String("h", "", "comma separated harness function names")
 	workers := fs.Int("workers", 16, "workers")
 	solver := fs.String("solver", "z3", "z3|z3-new|cvc5|cvc5-int")
@@ -78,6 +79,14 @@ func cmdRun(args []string) {
 	if err != nil {
 		fmt.Fprintln(os.Stderr, err)
 		os.Exit(2)
+	}
+	if *modfile == "auto" {
+		mf, err := writeEngineMod(*repo, filepath.Join(verifDir, "models"), filepath.Join(verifDir, "work"))
+		if err != nil {
+			fmt.Fprintln(os.Stderr, "engine.mod:", err)
+			os.Exit(2)
+		}
+		*modfile = mf
 	}
 	p, err := LoadProgram(LoadConfig{RepoDir: *repo, Overlay: ov, ModFile: *modfile, Tags: "verif"})
 	if err != nil {
